@@ -1065,12 +1065,18 @@ namespace xsimd
             using batch_type = batch<T, A>;
             using int_type = as_integer_t<T>;
             using i_type = batch<int_type, A>;
+            // subnormal arguments are scaled into the normal range first
+            auto const denormal = (abs(self) < constants::smallestposval<batch_type>()) && (self != batch_type(0.));
+            batch_type const scaled = select(denormal, self * constants::twotonmb<batch_type>(), self);
             i_type m1f = constants::mask1frexp<batch_type>();
-            i_type r1 = m1f & ::xsimd::bitwise_cast<int_type>(self);
-            batch_type x = self & ::xsimd::bitwise_cast<T>(~m1f);
+            i_type r1 = m1f & ::xsimd::bitwise_cast<int_type>(scaled);
+            batch_type x = scaled & ::xsimd::bitwise_cast<T>(~m1f);
             exp = (r1 >> constants::nmb<batch_type>()) - constants::maxexponentm1<batch_type>();
-            exp = select(batch_bool_cast<typename i_type::value_type>(self != batch_type(0.)), exp, i_type(typename i_type::value_type(0)));
-            return select((self != batch_type(0.)), x | ::xsimd::bitwise_cast<T>(constants::mask2frexp<batch_type>()), batch_type(0.));
+            exp = select(batch_bool_cast<typename i_type::value_type>(denormal), exp - i_type(typename i_type::value_type(constants::nmb<batch_type>())), exp);
+            // zeros (of either sign), infinities and NaN are returned unchanged, with a zero exponent
+            auto const regular = (self != batch_type(0.)) && isfinite(self);
+            exp = select(batch_bool_cast<typename i_type::value_type>(regular), exp, i_type(typename i_type::value_type(0)));
+            return select(regular, x | ::xsimd::bitwise_cast<T>(constants::mask2frexp<batch_type>()), self);
         }
 
         // from bool
